@@ -14,7 +14,7 @@ CHECKS = {
         "race_probe": {"harness": "c16race", "budget": {"quick": 5, "thorough": 60}},
     "level": "exploration",
         "budget": {"quick": 20, "thorough": 600},
-        "rule": "one evaluation = one seeded simulated run: generated workload (implementation x capacity in {-1,0,1,2,3,4,6} x 1-4 clients x 2-16 ops over 2-5 keys, unique put values; one workload in twelve is a bulk one: capacity 16-2600 (also +-2 around powers of two), 1-2 clients issuing fill / touch / drain range operations over capacity+1..1.5*capacity keys) under a seeded schedule (random / PCT / sticky, drawn per run) of the instrumented cache package. "
+        "rule": "one evaluation = one seeded simulated run: generated workload (implementation x capacity in {-1,0,1,2,3,4,6} x 1-4 clients x 2-16 ops over 2-5 keys, unique put values; one workload in a hundred is a bulk one: capacity 16-2600 (also +-2 around powers of two), 1-2 clients issuing fill / touch / drain range operations over capacity+1..1.5*capacity keys) under a seeded schedule (random / PCT / sticky, drawn per run) of the instrumented cache package. "
                 "A run is non-trivial if at least one scheduler decision with >=2 runnable tasks switched tasks (or a fault fired); distinct = distinct hashes of (workload, sequence of (task, source site) scheduling decisions), counted over all workers (per-worker cap 2M, so a lower bound).",
         "real": ["cache.Sieve", "cache.NonExpiringMapCache", "cache.Stats (all instrumented: RWMutex -> simsync, atomics yield)"],
         "stubs": [],
@@ -53,7 +53,7 @@ CHECKS["C13"] = {
     "race_probe": {"harness": "c13race", "budget": {"quick": 5, "thorough": 60}},
     "level": "exploration",
     "budget": {"quick": 25, "thorough": 600},
-    "rule": "one evaluation = one seeded simulated run over the instrumented cardinality package: width 32 or 64, 3-7 providers (bitmap / threadSafe(bitmap), owned or shared, seeded from dense, sparse, 2^16-, 2^32- and max-adjacent values), 1-3 clients x 3-15 ops (add/remove/contains/checkedadd/cardinality/slice/each/clear/clone+edit/or/and/andnot/xor with every receiver x operand pairing). W1 checks answers against a map model with porcupine (partition per receiver), plus an audit of every provider at quiescence; One workload in thirty is a large concurrent one (a small shared receiver combined with a frozen wrapper of 5000-70000 values while a second caller edits the receiver; one Add of 5000-140000 values while another caller observes or clears the same set; interleaving at the wrapper locks). W2 makes wrappers receivers and operands of each other concurrently and checks termination and that no element appears that nobody added. "
+    "rule": "one evaluation = one seeded simulated run over the instrumented cardinality package: width 32 or 64, 3-7 providers (bitmap / threadSafe(bitmap), owned or shared, seeded from dense, sparse, 2^16-, 2^32- and max-adjacent values), 1-3 clients x 3-15 ops (add/remove/contains/checkedadd/cardinality/slice/each/clear/clone+edit/or/and/andnot/xor with every receiver x operand pairing). W1 checks answers against a map model with porcupine (partition per receiver), plus an audit of every provider at quiescence; One workload in fifty is a large concurrent one (a small shared receiver combined with a frozen wrapper of 5000-70000 values while a second caller edits the receiver; one Add of 5000-140000 values while another caller observes or clears the same set; interleaving at the wrapper locks). W2 makes wrappers receivers and operands of each other concurrently and checks termination and that no element appears that nobody added. "
             "Non-trivial = a contended scheduler decision switched tasks; distinct = distinct (workload, decision sequence) hashes, union over workers (cap 2M per worker: lower bound).",
     "real": ["cardinality.bitmap32", "cardinality.bitmap64", "cardinality.threadSafeDuplex (instrumented: Mutex -> simsync)", "RoaringBitmap roaring + roaring64 (real code; a patched copy of the module with a scheduling point at every function entry, seeded 0.2-10% subset active per run, so callers that a broken wrapper lets into one bitmap interleave inside it)"],
     "stubs": [],
